@@ -41,6 +41,8 @@ def check(ctx, F):
     check_layout(ctx, F)
     sub = _NameKind(ctx)
     C02.check_name_kind(sub, F)
+    from . import C09
+    C09.check_append(ctx, F, "C14.step-record")
     for fid, b in insts(F, "R_", {"processTransitions", "initialEnter"}):
         site = "R_::" + b["name"]
         rex = C04.RE_PROCESS if b["name"] == "processTransitions" else C04.RE_INITIAL
